@@ -26,12 +26,16 @@ GenClause(pre, e) ==
   LET hof == e.hof pop == e.pop IN
   IF \E i \in 1..(Len(hof) - 1) : ~Leq(hof[i].score, hof[i + 1].score) THEN "HofSorted"
   ELSE IF \E i \in DOMAIN hof : hof[i].oid # 0 /\ ~Close(hof[i].score, hof[i].rescore) THEN "HofHonest"
-  ELSE IF \E i \in DOMAIN hof : \E j \in DOMAIN pop : hof[i].oid # 0 /\ hof[i].oid = pop[j].oid THEN "HofPrivate"
-  ELSE IF \E i, k \in DOMAIN hof : i # k /\ hof[i].oid # 0 /\ hof[i].oid = hof[k].oid THEN "HofEntriesDistinctObjects"
   ELSE IF pre.has /\ ~Leq(hof[1].score, pre.hof[1].score) THEN "BestMonotone"
   ELSE IF \E i \in DOMAIN hof : hof[i].oid # 0 /\ hof[i].fp \notin (Fps(pop) \cup (IF pre.has THEN Fps(pre.hof) ELSE {}))
        THEN "HofFromKnown"
   ELSE "ok"
+
+\* information, not a verdict: whether the hall of fame holds private copies (no object shared with the population or
+\* between entries) is HOW the implementation keeps stored scores honest; the property is HofHonest itself
+SharesObjects(e) ==
+  \/ \E i \in DOMAIN e.hof : \E j \in DOMAIN e.pop : e.hof[i].oid # 0 /\ e.hof[i].oid = e.pop[j].oid
+  \/ \E i, k \in DOMAIN e.hof : i # k /\ e.hof[i].oid # 0 /\ e.hof[i].oid = e.hof[k].oid
 
 FinalClause(pre, e) ==
   IF e.err # "" THEN "Raised"
@@ -105,6 +109,8 @@ TraceSpec == Init /\ [][Next]_vars
 Report ==
   /\ (why # "ok") => PrintT(<<"REJECT", Traces[tid].tid, l - 1, why, CauseOf(tid, l - 1, why)>>)
   /\ (why = "ok" /\ l = Len(Events(tid)) + 1) => PrintT(<<"DONE", Traces[tid].tid>>)
+  /\ (why = "ok" /\ l > 1 /\ Events(tid)[l - 1].ev = "gen" /\ SharesObjects(Events(tid)[l - 1])) =>
+        PrintT(<<"INFO", Traces[tid].tid, l - 1, "hall of fame shares circuit objects with the population or between entries">>)
   /\ (why = "ok" /\ l > 1 /\ Events(tid)[l - 1].ev = "update_hof") =>
         PrintT(<<"INFO", Traces[tid].tid, l - 1, IF HofRuleInfo(Events(tid)[l - 1]) THEN "update_hof follows the insertion rule of MC_Evo (ties: smaller circuit first)"
                          ELSE "update_hof deviates from the insertion rule of MC_Evo (allowed: the property fixes no tie-breaking)">>)
